@@ -617,14 +617,18 @@ def _alarm(signum: int, frame: Any) -> None:
 
 
 def guarded_case(spec: tuple, sampler_name: str, hist: str, seed: int, env: Env, part: Part, count: bool,
-                 limit: int) -> None:
+                 limit: int) -> bool:
+    """False if the case did not finish (a sampler spinning forever, e.g. NSGA-II's retry loop)."""
     old = signal.signal(signal.SIGALRM, _alarm)
     signal.alarm(limit)
     try:
         run_case(spec, sampler_name, hist, seed, env, part, count)
+        return True
     except _CaseTimeout:
         part.add("suggest_raised_unexpected")
+        part.add(f"case_timeouts[{sampler_name}]")
         part.note(f"UNEXPECTED case did not finish within {limit}s: {spec} {sampler_name} {hist} seed={seed} {env.config}")
+        return False
     finally:
         signal.alarm(0)
         signal.signal(signal.SIGALRM, old)
@@ -648,6 +652,7 @@ def task_fn(task: tuple) -> dict:
             torch.set_num_threads(1)
         except Exception:
             pass
+    hung: set = set()  # a sampler that hung once is not run again in this task (the run ends with exit 3)
     for spec in specs:
         dom = Dom(spec)
         env = Env(cfg)
@@ -657,8 +662,12 @@ def task_fn(task: tuple) -> dict:
                     continue
                 for sname in samplers:
                     for seed in seeds:
-                        guarded_case(spec, sname, hist, seed, env, part, cfg == "mem" and seed == seeds[0],
-                                     600 if sname == "GP" else 120)
+                        if sname in hung:
+                            part.add(f"cases_skipped_after_timeout[{sname}]")
+                            continue
+                        if not guarded_case(spec, sname, hist, seed, env, part, cfg == "mem" and seed == seeds[0],
+                                            900 if sname == "GP" else 30):
+                            hung.add(sname)
         finally:
             env.close()
         part.add(f"dists[{cfg}][{dom.cls()}]")
@@ -689,13 +698,13 @@ def chunks(lst: list, n: int) -> list[list]:
 
 def plan(tier: str) -> tuple[list[tuple], dict]:
     specs = lattice(tier)
-    seeds = (0,) if tier == "quick" else (0, 1)
+    seeds = (0,)
     tasks: list[tuple] = []
     for ch in chunks(specs, 224 if tier == "quick" else 288):
         tasks.append(("mem", ch, MEM_SAMPLERS, seeds, None))
     sub = storage_subset(specs, 4 if tier == "quick" else 14)
-    sub_slow = storage_subset(specs, 2 if tier == "quick" else 14)
-    for cfg, lst, n in (("jfile-sym", sub, 12), ("grpc(mem)", sub, 12), ("cached", sub_slow, 32 if tier == "quick" else 64)):
+    sub_slow = storage_subset(specs, 1 if tier == "quick" else 10)
+    for cfg, lst, n in (("jfile-sym", sub, 12), ("grpc(mem)", sub, 12), ("cached", sub_slow, 16 if tier == "quick" else 48)):
         for ch in chunks(lst, n if tier == "quick" else 2 * n):
             tasks.append((cfg, ch, STORAGE_SAMPLERS, (0,), None))
     if tier == "thorough":
@@ -745,7 +754,7 @@ def run(tier: str, replay: str | None = None) -> int:
         "m in {1,3,7} e in {-3,-1,0,1,3} (thorough), float steps {0.1,0.3,0.25,1,7,1e-3}, log floats over the positive "
         "values plus [1,1+1e-9], [1,1.0000001], [1-1e-9,1]; ints over the integral lattice values with steps 1/2/3/7 and "
         "log; categoricals = every ordered tuple of 1..3 distinct members of (None,True,1,1.5,'a') (quick) / "
-        "(None,True,False,1,0,1.5,'a','') (thorough); one parameter per study; 6 trials per case; sampler seeds {0} / {0,1}",
+        "(None,True,False,1,0,1.5,'a','') (thorough); one parameter per study; 6 trials per case; sampler seed 0",
         "log-scaled floats: 'a few ulps' is taken as max(4, 1+ceil|ln bound|) ulp beyond the bound (exp(log(b)) alone is 5 ulp "
         "off for b=3000, which QMC's first Sobol point and TPE's truncated normal at the bound return); all other domains exact",
         "histories are built with study.add_trial (values at both ends and interior grid points) / study.enqueue_trial; the "
@@ -777,7 +786,7 @@ def run(tier: str, replay: str | None = None) -> int:
 
         print(f"INTERNAL-ERROR: {bad} suggest_* calls raised an exception the environment model does not expect "
               f"(see notes in evidence/{PID}.json): {ctx.notes[:3]}", file=sys.stderr)
-        return 3
+        return rc or 3  # violations found elsewhere still count as violations
     return rc
 
 
